@@ -197,6 +197,33 @@ def assoc_stage(out, prop, tier, seed):
         out.add("transitions", res.generated)
 
 
+def advertisement_stage(out, prop, tier, seed):
+    """C33, advertisement clause (spec/SysSnapshot.tla): TLC enumerates lists of used sources with the expected advertised
+    stratum / reference id; each is run on the real NtpManager."""
+    cases = []
+    res = vf.run_tlc("SysSnapshot", "SysSnapshot.cfg", workers=1, timeout=600, tags=("ACASE",), line_sink=lambda t, o: cases.append(o), coverage=False)
+    if res.violated or not cases:
+        raise vf.ToolError("SysSnapshot: %s" % (res.violated or "no cases"))
+    cases.sort(key=vf.key)
+    wd = vf.workdir("SysSnapshot")
+    inp, outp = os.path.join(wd, "cases.ndjson"), os.path.join(wd, "results.ndjson")
+    vf.write_ndjson(inp, cases)
+    vf.run_harness("ntp_proto", "system::verif_hook::verif_system", {"input": inp, "output": outp, "seed": seed})
+    results = vf.read_ndjson(outp)
+    if len(results) != len(cases):
+        raise vf.ToolError("SysSnapshot: %d results for %d cases" % (len(results), len(cases)))
+    for r in results:
+        if r["fields"]:
+            c = cases[r["id"]]
+            sig = "SysSnapshot:local=%d:[%s]:%s" % (c["local"], " ".join("%s/%s%s" % (x["ty"], x["stratum"], "" if x["snap"] else "?") for x in c["list"]),
+                                                     ",".join(sorted(r["fields"])))
+            out.violation(sig, {"case": c, "observed": r["observed"]})
+    out.add("advertisement_cases_confirmed", len(results))
+    out.add("states", res.distinct)
+    out.add("transitions", len(cases))
+    out.sample({"advertisement_case": cases[len(cases) // 2]})
+
+
 def reach_lemma(out):
     res = vf.run_tlc("Reach", "Reach.cfg", workers=2, timeout=300, coverage=False)
     if res.violated:
@@ -224,6 +251,8 @@ def run(prop, tier, seed):
         assoc_stage(out, prop, tier, seed)
     if prop == "C11":
         reach_lemma(out)
+    if prop == "C33":
+        advertisement_stage(out, prop, tier, seed)
     return out
 
 
